@@ -125,7 +125,9 @@ def c11(run, ctx):
     import fam_flow as _ff
     _ff.limit_provenance(run, ctx)
     fam_iter.dispatch_rule(run, ctx)
-    # the string-like replacers expand their template through Captures::expand / Expander
+    # the string-like replacers expand their template through Captures::expand / Expander: "the replacer's output for
+    # the corresponding captures" of a `$name` / `$N` template is what the expander's writers insert
+    fam_expand.writers_agree(run, ctx)
     fns, entries = fam_panic.scope_fns(ctx, "search")
     fam_panic.run(run, ctx, fns, "expand", restrict=lambda sp: sp.startswith("expand::") or sp in ("Captures::expand",) or sp.startswith("replacer::"))
 
@@ -142,7 +144,7 @@ PROPS["C10"] = {"fn": c10, "level": "other",
     "explanation": "All paths of both next() bodies are enumerated; each class of path (exhausted/remainder/match/error; zero/delegate/last/done) must exist and satisfy its obligations."}
 PROPS["C11"] = {"fn": c11, "level": "other",
     "technique": "structured path enumeration of try_replacen (both loops) + Replacer impl table",
-    "claim": "Decides structurally that both loops of try_replacen borrow iff there is no match, propagate search errors with `?` before slicing, stop at `limit > 0 && i >= limit`, copy the gap, insert the replacement once and advance last_match to m.end(), append the tail; replace/replace_all/replacen forward (1,0,n); the five string-like Replacer impls share one no_expansion helper testing contains('$'), NoExpand returns Some, closures keep None; every replace_append writes to dst.",
+    "claim": "Decides structurally that both loops of try_replacen borrow iff there is no match, propagate search errors with `?` before slicing, stop at `limit > 0 && i >= limit`, copy the gap, insert the replacement once and advance last_match to m.end(), append the tail; replace/replace_all/replacen forward (1,0,n); the five string-like Replacer impls share one no_expansion helper testing contains('$'), NoExpand returns Some, closures keep None; every replace_append writes to dst; what a `$name` / `$N` template inserts is decided with the expander's writer rules (shared with C12).",
     "note": "The replaced text for concrete inputs is not decided; last_match <= m.start() follows from the End-arm cap start >= search position (checked here) and the iterator state machine.",
     "explanation": "Paths of try_replacen are enumerated (loop bodies once); obligations are evaluated per path and per Replacer impl."}
 
@@ -446,7 +448,7 @@ PROPS["C01"] = {"fn": c01, "level": "other",
     "explanation": "Each compile-side builder is interpreted into symbolic templates; each interpreter arm is path-enumerated against its obligations; tables are compared between compiler and VM."}
 PROPS["C02"] = {"fn": c02, "level": "other",
     "technique": "slot-layout linear forms (SLOT), group template, undo-log obligations (STATE/OWN), counting agreement parser <-> analyser",
-    "claim": "One capture-slot layout agreed by the writer and all readers: Save(2g)/Save(2g+1) around group bodies, Delegate copy loop with the +1 shift for the delegate's group 0 and the unset fill for unmatched inner groups, Captures::get/len/truncate, n_groups; group numbers follow opening-parenthesis order (parser counts exactly the Group-producing branches, analyser counts in the Group arm before visiting); nothing left over from abandoned alternatives reduces to the undo-log discipline (shared with C20). Which iteration's span is reported for an input is not decided.",
+    "claim": "One capture-slot layout agreed by the writer and all readers: Save(2g)/Save(2g+1) around group bodies, Delegate copy loop with the +1 shift for the delegate's group 0 and the unset fill for unmatched inner groups, Captures::get/len/truncate, n_groups; group numbers follow opening-parenthesis order (parser counts exactly the Group-producing branches, analyser counts in the Group arm before visiting); nothing left over from abandoned alternatives reduces to the undo-log discipline (shared with C20); the counted-repeat arms of the VM (store the count before a lazy loop pushes its next iteration) and the compiler's choice among them are decided with the repeat rules shared with C07. Which iteration's span is reported for an input is not decided.",
     "note": _SHAPE_NOTE,
     "explanation": "Index expressions that address saves are reduced to linear forms a*g+b and compared with the layout; State methods are path-enumerated."}
 PROPS["C03"] = {"fn": c03, "level": "other",
